@@ -8,10 +8,14 @@
 EXTENDS Integers, Sequences, Wide
 Types == {"i8", "u8", "i16", "u16", "i32", "u32", "i64", "u64"}
 Signed(T) == T \in {"i8", "i16", "i32", "i64"}
-MaxOf(T) == CASE T = "i8" -> FromNat(127) [] T = "u8" -> FromNat(255)
-              [] T = "i16" -> FromNat(32767) [] T = "u16" -> FromNat(65535)
-              [] T = "i32" -> Max31 [] T = "u32" -> FromBE(<<4, 2, 9, 4, 9, 6, 7, 2, 9, 5>>)
-              [] T = "i64" -> Max63 [] T = "u64" -> Max64
+\* (zero-argument definitions: TLC evaluates each once)
+MaxI8 == FromNat(127)
+MaxU8 == FromNat(255)
+MaxI16 == FromNat(32767)
+MaxU16 == FromNat(65535)
+MaxU32 == FromBE(<<4, 2, 9, 4, 9, 6, 7, 2, 9, 5>>)
+MaxOf(T) == CASE T = "i8" -> MaxI8 [] T = "u8" -> MaxU8 [] T = "i16" -> MaxI16 [] T = "u16" -> MaxU16
+              [] T = "i32" -> Max31 [] T = "u32" -> MaxU32 [] T = "i64" -> Max63 [] T = "u64" -> Max64
 \* magnitude of the most negative value of a signed type
 MinMagOf(T) == Add(MaxOf(T), <<1>>)
 Zero == [neg |-> FALSE, mag |-> <<>>]
